@@ -310,3 +310,41 @@ Proof.
   eexists. split; [vm_compute; reflexivity|]. repeat split; try (vm_compute; reflexivity).
   intros b Hin. apply in_map_iff in Hin as (l & E & _). discriminate.
 Qed.
+
+(** ** the gameplay-side end of the storage is gone (the handle that owns the [ResourceController] was
+    dropped while the storage lives on: a [persist_until_sounds_finish] track whose sounds are still
+    playing, a parent track kept alive by a child): from then on only the audio thread and the environment
+    (sounds finishing, handles of the resources being dropped) take steps *)
+Definition consumer_gone (sched : list label) : Prop :=
+  forall l, In l sched -> thread_of l = Audio \/ exists p, l = G_mark p.
+
+Lemma abandoned_owner_parks_payloads_proof :
+  forall cf sched1 s1 sched2,
+    run cf sched1 (init cf) = Ok s1 -> consumer_gone sched2 ->
+    exists s2, run cf sched2 s1 = Ok s2 /\
+               st_destroyed s2 = st_destroyed s1 /\ st_next s2 = st_next s1 /\
+               length (st_unused s2) + length (infl (st_inflight s2)) <= unused_cap cf /\
+               Permutation (seq 0 (st_next s2))
+                 (map snd (st_newq s2) ++ slot_payloads (aslots (st_ar s2))
+                    ++ (st_unused s2 ++ infl (st_inflight s2)) ++ map fst (st_destroyed s2)).
+Proof.
+  intros cf sched1 s1 sched2 H1 Hg. destruct (reach _ _ _ H1) as [I1 Q1]. unfold Inv in I1.
+  assert (G : forall sched s, InvL cf s [] -> QInv cf s -> consumer_gone sched ->
+              exists s2, run cf sched s = Ok s2 /\ InvL cf s2 [] /\ QInv cf s2 /\
+                         st_destroyed s2 = st_destroyed s /\ st_next s2 = st_next s).
+  { induction sched as [|l rest IH]; intros s I Q Hc; cbn [run]; [eauto 6|].
+    destruct (step_ok cf l s I Q) as (s' & E & I' & Q'). rewrite E. cbn [obind].
+    assert (F : st_destroyed s' = st_destroyed s /\ st_next s' = st_next s).
+    { destruct (Hc l (or_introl eq_refl)) as [Ha|[p ->]].
+      - exact (audio_step_frame cf l s s' I Ha E).
+      - cbn [step] in E. unfold g_mark in E.
+        destruct ((p <? st_next s) && negb (is_marked s p)); inversion E; subst; auto. }
+    destruct (IH s' I' Q') as (s2 & R & I2 & Q2 & D & N).
+    { intros l' Hl'. apply Hc. now right. }
+    exists s2. destruct F as [F1 F2]. split; [exact R|]. split; [exact I2|]. split; [exact Q2|].
+    split; [now rewrite D|now rewrite N]. }
+  destruct (G sched2 s1 I1 Q1 Hg) as (s2 & R & I2 & Q2 & D & N).
+  exists s2. repeat split; auto.
+  - unfold QInv in Q2. unfold unused_cap. lia.
+  - apply (i_cons _ _ _ I2).
+Qed.
